@@ -18,6 +18,7 @@ at the top-level directory.
 #include <stdlib.h>
 #include <stdio.h>
 #include "slu_mt_ddefs.h"
+#include "slu_mt_verif.h"
 
 #define XPAND_HINT(memtype, new_next, jcol, param) {\
 fprintf(stderr, "Storage for %12s exceeded; Current column " IFMT "; Need at least " IFMT ";\n",\
@@ -125,6 +126,7 @@ Glu_alloc(
 	else fsupc = jcol;
 	*prev_next = Glu->map_in_sup[fsupc];
 	Glu->map_in_sup[fsupc] += num;
+	SLU_VERIF_EV("LusupAlloc", pnum, jcol, num, *prev_next, fsupc);
 
 #if 0
 	{
@@ -180,6 +182,7 @@ Glu_alloc(
 	    }
 	    *prev_next = nextu;
 	    Glu->nextu = new_next;
+	    SLU_VERIF_EV("UAlloc", pnum, jcol, num, nextu, Glu->nzumax);
 
 	} /* end of critical region */
 	
@@ -223,6 +226,7 @@ Glu_alloc(
 	  }
 	  *prev_next = nextl;
 	  Glu->nextl = new_next;
+	  SLU_VERIF_EV("LsubAlloc", pnum, jcol, num, nextl, Glu->nzlmax);
 	  
 	} /* end of #pragama critical lock() */
 	
@@ -285,6 +289,7 @@ DynamicSetMap(
 	    XPAND_HINT("L supernodes", new_next, jcol, 6);
 	}
 	Glu->nextlu = new_next;
+	SLU_VERIF_EV("DynMap", pnum, jcol, num, nextlu, Glu->nzlumax);
     } /* end of critical region */
 
 #if ( MACH==SUN )
